@@ -199,8 +199,9 @@ impl Model {
 fn materialise(c: &Case) -> (Install, Model) {
     let inst = Install::new("c01");
     let installed: HashSet<u8> = c.exps.iter().copied().collect();
-    for e in &c.exps {
-        inst.add_repo(*e);
+    for (i, e) in c.exps.iter().enumerate() {
+        // every fifth expansion folder lacks its version file: its archives are there all the same
+        inst.add_repo_with(*e, (*e as usize + i + c.platform as usize) % 5 != 0);
     }
     let mut model = Model { installed: installed.clone(), idx1: HashMap::new(), idx2: HashMap::new(), stored: vec![] };
     let mut seen_chunks = HashSet::new();
